@@ -25,7 +25,24 @@ def solve(solver, cond, timeout_ms=SOLVER_TIMEOUT_MS):
     # canonical form cross-check: a BDD is unsatisfiable iff it is the constant False
     if (verdict == "unsat") != (cond is False) and verdict in ("sat", "unsat"):
         raise Unsupported("z3 verdict %s disagrees with the canonical form of the condition" % verdict)
+    if CROSS_CHECK["on"] and verdict in ("sat", "unsat"):
+        other = cvc5_verdict(s.to_smt2())
+        CROSS_CHECK["n"] += 1
+        if other != verdict:
+            raise Unsupported("cvc5 answered %s where z3 answered %s" % (other, verdict))
     return verdict, asg, time.time() - t0
+
+
+CROSS_CHECK = {"on": False, "n": 0}
+
+
+def cvc5_verdict(smt2):
+    import subprocess
+    p = subprocess.run(["cvc5", "--lang", "smt2"], input=smt2, stdout=subprocess.PIPE, stderr=subprocess.PIPE, text=True, timeout=300)
+    out = p.stdout.strip().splitlines()
+    if any(l.startswith("(error") for l in out) or not out:
+        return "error: " + (p.stdout + p.stderr)[:200]
+    return out[0].strip()
 
 
 def native_rows(dump, prog):
@@ -201,6 +218,7 @@ def check_program(corpus, mod_ast, prog, sc, rng, V=3, features=None):
         else:
             out.status, out.detail = "inconclusive", "translator validation failed: " + msg
     out.stats["total_s"] = round(time.time() - t0, 2)
+    out.stats["cvc5_cross_checked"] = CROSS_CHECK["n"]
     return out
 
 
